@@ -61,7 +61,6 @@ def check(run, repo, world):
     _check_map(run, repo, world, banks, values, spec)
     _check_struct(run, repo, world, banks, values)
     masks = _check_masks(run, repo, world, folder, values)
-    _check_mask_form(run, repo)
     _check_decode(run, repo, world, folder, values, masks, spec)
     _check_inverse(run, repo, world, values)
     run.attempt(_check_decode_forms, run, repo, world, values)
@@ -236,64 +235,6 @@ def _check_masks(run, repo, world, folder, values):
                where(mod, d.cls.node), trivial=True)
         out[d.qname] = dyn
     return out
-
-
-# (class, bytes of the pattern = len(locations) + mask_length_adjust, signed)
-MASK_PROBES = [("ProbeSignedInherited", 2, True), ("ProbeSignedOwn", 3, True),
-               ("ProbeScaledMask", 3, False), ("ProbeUnsigned", 3, False)]
-
-
-def _check_mask_form(run, repo):
-    """R-MASK-FORM: the metaclass builds MASK / TMASK from the class's
-    *effective* attributes - signedness as the class sees it (inherited or
-    its own), len(locations) + mask_length_adjust bytes for both patterns -
-    decided by interpreting the metaclass over synthetic declarations
-    (spec/mask_probe.py.txt, parsed as one more module of the program, never
-    run) that exercise the combinations no shipped value uses."""
-    import copy
-    from ..core import Module
-    from ..front import World
-    run.rule("R-MASK-FORM", "the metaclass derives MASK/TMASK from the "
-             "effective signedness and the adjusted width (interpreted over "
-             "synthetic declarations)")
-    src = open(os.path.join(VERIF, "spec", "mask_probe.py.txt")).read()
-    r2 = copy.copy(repo)
-    r2.modules = dict(repo.modules)
-    name = "dali.memory._verif_probe"
-    r2.modules[name] = Module(name, os.path.join(
-        repo.root, "dali", "memory", "_verif_probe.py"),
-        "dali/memory/_verif_probe.py", src)
-    w2 = World(r2)
-    f2 = memmap.memory_folder(w2)
-    rx = RegExec(w2, f2, record_methods={
-        ("MemoryBank", "_add_memory_value"): lambda bank, v: None})
-    base = w2.cls(LOC + ".MemoryValue")
-    rx.create_all([c for c in w2.class_order if base in c.mro])
-    if rx.raised:
-        raise AnalysisError("memory value registration raises with the "
-                            "probe declarations: %s" % rx.raised[:3])
-    mod = repo.mod(LOC)
-    meta = w2.cls(LOC + "._RegisterMemoryValue")
-    n = 0
-    for cname, width, signed in MASK_PROBES:
-        o = rx.obj(w2.cls(name + "." + cname))
-        for attr, minus in (("mask", 0), ("tmask", 1)):
-            if signed:
-                want = ((1 << (8 * width - 1)) - 1 - minus).to_bytes(
-                    width, "big", signed=True)
-            else:
-                want = ((1 << (8 * width)) - 1 - minus).to_bytes(width, "big")
-            got = o.ns.get(attr)
-            n += 1
-            run.ob("R-MASK-FORM", "%s#%s" % (cname, attr), got == want,
-                   "for a value declared like %s (%s, pattern of %d bytes) "
-                   "the metaclass builds %s = %s; the reserved pattern is "
-                   "%s: such a value never reads as %s, or a legal number "
-                   "does" % (cname, "signed" if signed else "unsigned",
-                             width, attr, got.hex() if isinstance(
-                                 got, bytes) else got, want.hex(),
-                             attr.upper(), ), where(mod, meta.node))
-    run.floor("mask probe patterns", n, 8)
 
 
 def _expected_sets(d, r, first_byte_only=False):
